@@ -43,7 +43,7 @@ func (a *attackAnchors) workerGos() []*ssa.Go {
 			if !ok {
 				return
 			}
-			callee := g.Call.StaticCallee()
+			callee := goCallee(g)
 			if callee == nil || callee == a.Loop {
 				return
 			}
@@ -287,7 +287,7 @@ func (a *attackAnchors) resolveShutdown() (events []shutdownEvent, registered bo
 			break
 		}
 		switch i.(type) {
-		case *ssa.MakeClosure, *ssa.Alloc, *ssa.Store, *ssa.UnOp, *ssa.Defer, *ssa.FieldAddr:
+		case *ssa.MakeClosure, *ssa.Alloc, *ssa.Store, *ssa.UnOp, *ssa.Defer, *ssa.FieldAddr, *ssa.ChangeType, *ssa.Convert, *ssa.MakeInterface:
 		default:
 			registered = false
 		}
@@ -325,7 +325,36 @@ func (a *attackAnchors) resolveShutdown() (events []shutdownEvent, registered bo
 		}
 		if kind, ok := classify(d); ok {
 			events = append(events, shutdownEvent{kind, d})
+			continue
+		}
+		// `defer a.finish(ticks, &wg, results)`: a named helper invoked only here; its parameters
+		// stand for these arguments (valueOrCell follows them)
+		if h := d.Call.StaticCallee(); h != nil && h.Pkg == a.Loop.Pkg && len(h.Blocks) > 0 && uniqueSite(h) == ssa.CallInstruction(d) {
+			var evs []shutdownEvent
+			eachInstr(h, func(i ssa.Instruction) {
+				if kind, ok := classify(i); ok {
+					evs = append(evs, shutdownEvent{kind, i})
+				}
+			})
+			for x := 1; x < len(evs); x++ {
+				for y := x; y > 0 && instrDominates(evs[y].Instr, evs[y-1].Instr); y-- {
+					evs[y], evs[y-1] = evs[y-1], evs[y]
+				}
+			}
+			events = append(events, evs...)
 		}
 	}
 	return events, registered
+}
+
+// goCallee: the function a go statement starts — a static callee, or a function literal held in a
+// local that is assigned once (`worker := func() {…}; go worker()`).
+func goCallee(g *ssa.Go) *ssa.Function {
+	if f := g.Call.StaticCallee(); f != nil {
+		return f
+	}
+	if g.Call.IsInvoke() {
+		return nil
+	}
+	return closureOf(resolveOnceV(g.Call.Value))
 }
